@@ -7,6 +7,8 @@ import time
 
 import core
 import derived as D
+import extract_c14
+import freshtable
 import members as M
 import treeops as T
 from core import err_class
@@ -454,6 +456,11 @@ def report_stale(ctx, stale):
 
 
 def run(ctx: core.Run):
+    # the invalidation structure of the public mutators, regenerated from the source (Generated/FreshTable.lean):
+    # `current_tree_kept_fresh`, `every_invalidation_needed` and `invalidate_tied` are re-checked against it
+    table = ctx.regenerate(extract_c14.gen_fresh_table) or {"rows": [], "climb": "other"}
+    ctx.extra["fresh_table"] = {"climb": table.get("climb"), "rows": {n: [[_eff_str(e) for e in seg] for seg in segs]
+                                                                     for n, segs in table.get("rows", [])}}
     ctx.prove(["PsdVerif.Props.C14"])
     ctx.trusted_base += T.TRUSTED
     ctx.assumptions += T.ASSUME + [
@@ -560,6 +567,9 @@ def run(ctx: core.Run):
     lap("fresh-twin")
     T.compare_with_model(ctx, traces, what="C14")
     lap("model")
+    # every public call as one step of the machine that interprets the regenerated table
+    freshtable.compare(ctx, table, traces)
+    lap("table-machine")
     T.coverage(ctx, traces)
     T.report(ctx, traces, props=("C14",))
     lap("report")
@@ -700,6 +710,14 @@ NOTES = [
     "document that was EMPTIED is rendered from that stored image, so there an earlier save() shows through (known finding "
     "C14/impure/emptied-document-shows-stored-merged-image)",
 ]
+
+
+def _eff_str(e):
+    if e[0] == "mutate":
+        return "mutate %s %s %s (%s)%s" % (e[1], e[2], e[3], e[4], " if " + " and ".join(e[5]) if e[5] else "")
+    if e[0] == "other":
+        return "other " + e[1]
+    return " ".join(str(x) for x in e[:-1]) + (" if " + " and ".join(e[-1]) if e[-1] else "")
 
 
 def _short(v):
